@@ -31,6 +31,30 @@ Proof.
   reflexivity.
 Qed.
 
+(* ------------------------------------------------------------------ signature times *)
+
+Lemma dec_fuel_len fuel : forall n k, n < 10 ^ N.of_nat k -> (1 <= k)%nat -> (length (dec_fuel fuel n) <= k)%nat.
+Proof.
+  induction fuel as [|f IH]; intros n k H K; [cbn; lia|]. cbn [dec_fuel].
+  destruct (n <? 10) eqn:E; [cbn [length]; lia|].
+  rewrite app_length. cbn [length].
+  destruct k as [|k]; [lia|]. destruct k as [|k].
+  - cbn in H. lia.
+  - rewrite Nat2N.inj_succ, N.pow_succ_r' in H.
+    specialize (IH (n / 10) (S k)). assert (n / 10 < 10 ^ N.of_nat (S k)) by lia. specialize (IH H0). lia.
+Qed.
+
+Lemma read_timestamp_dec sp n : n <= 4294967295 ->
+  read_timestamp (shape_tok sp (TWord (map SChar (show_dec n)))) = Ok n.
+Proof.
+  intros H. unfold read_timestamp.
+  rewrite plain_read_ascii by (apply digits_plain, show_dec_digits). cbn [bind].
+  assert (L : (length (show_dec n) <= 10)%nat).
+  { unfold show_dec. apply dec_fuel_len; [|lia]. change (10 ^ N.of_nat 10) with 10000000000. lia. }
+  destruct (Nat.leb (length (show_dec n)) 10) eqn:E; [|apply Nat.leb_gt in E; lia].
+  rewrite parse_show_dec by exact H. reflexivity.
+Qed.
+
 (* ------------------------------------------------------------------ IPv4 address text *)
 
 Lemma split_dots_digits ds : forall cur rest, all_digits ds = true ->
@@ -120,6 +144,7 @@ Definition wf_field (k : fkind) (v : fval) : Prop :=
   | FCharstrs, VCharstrs l => l <> [] /\ Forall wf_charstr l
   | FRest, VRest w => forallb plain_char w = true
   | FRtype, VRtype n => n < 65536
+  | FTimestamp, VUint n => n <= 4294967295
   | FTypes, VTypes l => Forall (fun n => n < 65536) l
   | FSalt, VSalt w => forallb plain_char w = true /\ w <> [45]
   | FQuoted, VQuoted b => wf_bytes b
@@ -177,6 +202,7 @@ Proof.
   - constructor; [|constructor]. apply S, plain_word_good, rtype_plain, W.
   - rewrite !Forall_map. eapply Forall_impl; [|exact W]. intros n Hn. apply S, plain_word_good, rtype_plain, Hn.
   - constructor; [exact I|]. constructor; [|constructor]. apply S, plain_word_good, salt_text_plain, W.
+  - constructor; [|constructor]. apply S, plain_word_good, show_dec_plain.
   - constructor; [|constructor]. apply S, plain_word_good, show_ip4_plain, W.
   - constructor; [|constructor]. apply S, cstr_quoted_good, W.
   - destruct w as [|c w]; [repeat constructor|]. constructor; [|constructor]. apply S, plain_word_good.
@@ -238,6 +264,7 @@ Proof.
     rewrite map_o_rtypes by exact Wv. cbn [bind read_fields]. reflexivity.
   - destruct Wv as [Wp Wn]. cbn [shape_tok t_syms]. rewrite plain_word_text. cbn [bind].
     rewrite salt_back by exact Wn. rewrite IH by exact Wr. reflexivity.
+  - rewrite read_timestamp_dec by exact Wv. cbn [bind]. rewrite IH by exact Wr. reflexivity.
   - pose proof (show_ip4_plain _ Wv) as P. unfold plain_word in P. apply andb_true_iff in P as [_ P].
     rewrite plain_read_octets by exact P. cbn [bind]. rewrite parse_show_ip4 by exact Wv. cbv iota. cbn [bind]. rewrite IH by exact Wr. reflexivity.
   - rewrite read_octets_quoted by exact Wv. cbn [bind]. rewrite IH by exact Wr. reflexivity.
